@@ -177,6 +177,8 @@ def _mp2(p, s):
 CHAINS = {
     "id": (lambda x: x, False, False),
     "add1": (lambda x: x + 1, False, False),
+    # per-partition arguments looked up by position (BlockwiseDep bin edges of a resample): D113
+    "resample_12h": (lambda x: x.a.resample("12h").sum(), False, False),
     # a narrow projection below an operation: the tune stage fuses several files of a parquet read into one task
     "proj_a_add1": (lambda x: x[["a"]] + 1, False, False),
     "filter": (lambda x: x[x.a > 4], False, False),
@@ -528,7 +530,7 @@ def selections(np_, quick, rng):
 
 
 _MECHANISM = {"id": None, "assign_series": "elemwise-series-operand", "mul_axis0": "elemwise-series-operand",
-              "where_series": "elemwise-series-operand", "add1": "elemwise", "proj_a_add1": "elemwise", "filter": "filter", "col_a": "projection", "bcast_assign": "broadcast-operand",
+              "where_series": "elemwise-series-operand", "add1": "elemwise", "proj_a_add1": "elemwise", "resample_12h": "resample", "filter": "filter", "col_a": "projection", "bcast_assign": "broadcast-operand",
               "bcast_series": "broadcast-operand", "bcast_where": "broadcast-operand", "mappart": "map_partitions",
               "mappart_bcast": "broadcast-operand", "add1_filter_proj": "elemwise", "repart3": "repartition", "repart7": "repartition",
               "shuffle_tasks": "shuffle", "shuffle_tasks_mb2": "shuffle", "shuffle_tasks_up_mb2": "shuffle", "shuffle_disk": "shuffle", "shuffle_add1": "shuffle",
@@ -625,6 +627,10 @@ MUST_RUN = [
     {"source": "read_parquet_div", "chain": "shift1", "sel": {"kind": "to_delayed_sel", "P": [1, 2, 3, 4, 5]}},
     {"source": "read_parquet_div", "chain": "cumsum", "sel": {"kind": "partitions", "P": [0, 0]}},
     {"source": "read_parquet", "chain": "col_a", "sel": {"kind": "head", "n": 2, "k": 6}},
+    {"source": "timeseries", "chain": "resample_12h", "sel": {"kind": "partitions", "P": [1, 2]}},        # D113
+    {"source": "timeseries", "chain": "resample_12h", "sel": {"kind": "partitions", "P": [3, 0]}},
+    {"source": "timeseries", "chain": "resample_12h", "sel": {"kind": "tail", "n": 2}},
+    {"source": "timeseries", "chain": "resample_12h", "sel": {"kind": "to_delayed_sel", "P": [4, 1]}},
     # a REORDERED selection pushed into a parquet read that is then fused (FusedIO._fusion_buckets must keep the
     # order of the selection: seeded change C11-m4 bucketed by file number)
     {"source": "read_parquet", "chain": "proj_a_add1", "sel": {"kind": "partitions", "P": [0, 3, 1, 5]}},
